@@ -24,6 +24,10 @@ CLAIMS.update({
     "C19": ("table agreement between argparse declarations and configuration loaders + handler coverage", "Option tables of cli() and the three loaders agree (every effective option loadable, key = attribute, default = current command-line value, set-valued options wrapped), derived state recomputed, consumers after the load, the loader's try covers OSError/ValueError/TypeError/AttributeError with a message and no re-raise. Not decided: that an option has the same downstream effect on both channels; partial application when a loader fails midway."),
 })
 
+CLAIMS.update({
+    "C20": ("SCCs of the resolved call graph, edge classification (tree / name-resolved link / text) from all field stores, guard recognition on dominating facts", "Every recursive component of the call graph is enumerated; each recursive call is classified by the object it descends through, and every cycle that follows a name-resolved link (link_obj, inherit_var, ancestor_obj, workspace lookups, included files) must pass a guard: visited collection (G1), generation stamp (G2), depth counter (G3), absorbed RecursionError (G4), link field acyclic by construction - every store dominated by a chain walk (G5), one-shot flag (G6). Link-following loops must be bounded; the parent/children graph may only receive freshly built objects or ancestry-tested grafts; the recursion limit is applied before indexing. Not decided: time bounds, non-recursive blow-ups, recursion hidden behind unresolved dynamic calls."),
+})
+
 NA_REASON = "check under construction in this round (rules designed in DESIGN.md section 3, not yet implemented); will move to checks once its rules run"
 
 
